@@ -459,4 +459,359 @@ theorem runOps_eq_ref {m : MSt} {rm : RMSt} (hm : RepM m rm) (ops : List Op) :
     exact ⟨by rw [h1, h3], h4⟩
 
 
+
+/-! ## admission as a statement about windows and throttlers -/
+
+/-- the request finds its way along the chain: every reject rule of `res` has room in its aligned window at the
+    moment it is asked, every throttling rule lets it through — possibly after a wait, which moves the moment at
+    which the rules behind it are asked -/
+def Admits (srcOf : RuleInfo → Nat) (H : List Arrival) (res b : Nat) : List RCtrl → Nat → Prop
+  | [], _ => True
+  | c :: r, t =>
+    if c.info.rule.res ≠ res then Admits srcOf H res b r t
+    else match c.info.rule.kind with
+      | .reject => c.info.rule.thr.exceeds (c.tokens srcOf H (t / nsPerMs) + b) = false ∧ Admits srcOf H res b r t
+      | .throttle maxQ =>
+        match (Throttle.doCheck ((maxQ * nsPerMs : Nat) : Int) c.last (t : Int) (throttleReq c.info.rule.thr c.info.rule.iv b)).2 with
+        | .block => False
+        | .pass => Admits srcOf H res b r t
+        | .wait w => Admits srcOf H res b r (t + w.toNat)
+
+theorem chainG_none_iff (srcOf : RuleInfo → Nat) (H : List Arrival) (res b : Nat) (cs : List RCtrl) (t : Nat) :
+    (chainG (refOps srcOf H) res b cs t).2.2 = none ↔ Admits srcOf H res b cs t := by
+  induction cs generalizing t with
+  | nil => simp [chainG, Admits]
+  | cons c r ih =>
+    by_cases hr : c.info.rule.res = res
+    · cases hk : c.info.rule.kind with
+      | reject =>
+        by_cases hb : c.info.rule.thr.exceeds (c.tokens srcOf H (t / nsPerMs) + b) = true
+        · simp [chainG, Admits, refOps, hr, hk, hb]
+        · have hb' : c.info.rule.thr.exceeds (c.tokens srcOf H (t / nsPerMs) + b) = false := by simpa using hb
+          have := ih t
+          simp only [chainG, Admits, refOps, hr, hk, hb', ne_eq, not_true_eq_false, if_false, true_and, Bool.false_eq_true] at this ⊢
+          exact this
+      | throttle maxQ =>
+        have h1 := ih t
+        simp only [chainG, Admits, refOps, hr, hk, ne_eq, not_true_eq_false, if_false] at h1 ⊢
+        rcases hd : Throttle.doCheck ((maxQ * nsPerMs : Nat) : Int) c.last (t : Int) (throttleReq c.info.rule.thr c.info.rule.iv b) with ⟨l, o⟩
+        cases o with
+        | block => simp
+        | pass => simpa using h1
+        | wait w =>
+          have h2 := ih (t + w.toNat)
+          simp only [refOps] at h2
+          simpa using h2
+    · have := ih t
+      simp only [chainG, Admits, refOps, hr, ne_eq, not_false_eq_true, if_true] at this ⊢
+      exact this
+
+theorem RCtrl.tokens_congr (f g : RuleInfo → Nat) (H : List Arrival) (c : RCtrl) (ms : Nat) (h : f c.info = g c.info) :
+    c.tokens f H ms = c.tokens g H ms := by
+  unfold RCtrl.tokens; rw [h]
+
+theorem Admits_congr (f g : RuleInfo → Nat) (H : List Arrival) (res b : Nat) (cs : List RCtrl) (t : Nat)
+    (h : ∀ c ∈ cs, f c.info = g c.info) : Admits f H res b cs t ↔ Admits g H res b cs t := by
+  induction cs generalizing t with
+  | nil => exact Iff.rfl
+  | cons c r ih =>
+    have ih' := fun t => ih t (fun c hc => h c (List.mem_cons_of_mem _ hc))
+    by_cases hr : c.info.rule.res = res
+    · cases hk : c.info.rule.kind with
+      | reject =>
+        simp only [Admits, hr, hk, ne_eq, not_true_eq_false, if_false]
+        rw [RCtrl.tokens_congr f g H c _ (h c (List.mem_cons_self ..)), ih' t]
+      | throttle maxQ =>
+        simp only [Admits, hr, hk, ne_eq, not_true_eq_false, if_false]
+        rcases (Throttle.doCheck ((maxQ * nsPerMs : Nat) : Int) c.last (t : Int) (throttleReq c.info.rule.thr c.info.rule.iv b)).2 with _ | w | _
+        · exact ih' t
+        · exact ih' _
+        · exact Iff.rfl
+    · simp only [Admits, hr, ne_eq, not_false_eq_true, if_true]
+      exact ih' t
+
+
+
+/-! ## window caps across reloads -/
+
+theorem histOf_append_list (H1 H2 : List Arrival) (r : Nat) : histOf (H1 ++ H2) r = histOf H1 r ++ histOf H2 r := by
+  simp [histOf, List.filter_append]
+
+theorem refW_append_list (L : Nat) (h1 h2 : List (Nat × Nat)) (lo hi : Nat) :
+    refW L (h1 ++ h2) lo hi = refW L h1 lo hi + refW L h2 lo hi := by
+  simp [refW, List.map_append, List.sum_append]
+
+/-- dropping more of the history can only lower a window count -/
+theorem refW_drop_le (L : Nat) (H : List Arrival) (r : Nat) (j k : Nat) (hjk : j ≤ k) (lo hi : Nat) :
+    refW L (histOf (H.drop k) r) lo hi ≤ refW L (histOf (H.drop j) r) lo hi := by
+  have : H.drop j = (H.drop j).take (k - j) ++ H.drop k := by
+    have h1 : H.drop k = (H.drop j).drop (k - j) := by rw [List.drop_drop]; congr 1; omega
+    rw [h1, List.take_append_drop]
+  rw [this, histOf_append_list, refW_append_list]
+  omega
+
+/-- an admitted request found room at every reject rule of its resource, at some moment between its arrival and the
+    end of the walk -/
+theorem chainG_none_room {α : Type} (O : ChainOps α) (res b : Nat) (cs : List α) (t : Nat)
+    (h : (chainG O res b cs t).2.2 = none) :
+    ∀ c ∈ cs, (O.rule c).res = res → (O.rule c).kind = .reject →
+      ∃ tc, t ≤ tc ∧ tc ≤ (chainG O res b cs t).2.1 ∧ O.blocks c (tc / nsPerMs) b = false := by
+  induction cs generalizing t with
+  | nil => intro c hc; simp at hc
+  | cons a r ih =>
+    intro c hc hres hkind
+    have hmono := fun t => chainG_time_le O res b r t
+    by_cases hr : (O.rule a).res = res
+    · cases hk : (O.rule a).kind with
+      | reject =>
+        by_cases hb : O.blocks a (t / nsPerMs) b = true
+        · simp [chainG, hr, hk, hb] at h
+        · have hb' : O.blocks a (t / nsPerMs) b = false := by simpa using hb
+          simp only [chainG, hr, hk, hb', ne_eq, not_true_eq_false, if_false, Bool.false_eq_true] at h ⊢
+          rcases List.mem_cons.mp hc with e | hc'
+          · subst e; exact ⟨t, le_refl _, hmono t, hb'⟩
+          · exact ih t h c hc' hres hkind
+      | throttle maxQ =>
+        simp only [chainG, hr, hk, ne_eq, not_true_eq_false, if_false] at h ⊢
+        have hca : c ≠ a := fun e => by subst e; rw [hk] at hkind; cases hkind
+        have hc' : c ∈ r := by rcases List.mem_cons.mp hc with e | h'; exact absurd e hca; exact h'
+        rcases hd : Throttle.doCheck ((maxQ * nsPerMs : Nat) : Int) (O.last a) (t : Int) (throttleReq (O.rule a).thr (O.rule a).iv b) with ⟨l, o⟩
+        rw [hd] at h
+        cases o with
+        | block => simp at h
+        | pass => simp only at h ⊢; exact ih t h c hc' hres hkind
+        | wait w =>
+          simp only at h ⊢
+          obtain ⟨tc, h1, h2, h3⟩ := ih (t + w.toNat) h c hc' hres hkind
+          exact ⟨tc, by omega, h2, h3⟩
+    · have hca : c ≠ a := fun e => by subst e; exact hr hres
+      have hc' : c ∈ r := by rcases List.mem_cons.mp hc with e | h'; exact absurd e hca; exact h'
+      simp only [chainG, hr, ne_eq, not_false_eq_true, if_true] at h ⊢
+      exact ih t h c hc' hres hkind
+
+/-- the chain walk changes nothing but `lastPassedTime`s -/
+theorem chainG_ref_static (srcOf : RuleInfo → Nat) (H : List Arrival) (res b : Nat) (cs : List RCtrl) (t : Nat) :
+    List.Forall₂ (fun c' c => c'.info = c.info ∧ c'.since = c.since ∧ c'.born = c.born)
+      (chainG (refOps srcOf H) res b cs t).1 cs := by
+  induction cs generalizing t with
+  | nil => exact List.Forall₂.nil
+  | cons a r ih =>
+    have hrefl : List.Forall₂ (fun c' c : RCtrl => c'.info = c.info ∧ c'.since = c.since ∧ c'.born = c.born) r r :=
+      List.forall₂_same.mpr (fun _ _ => ⟨rfl, rfl, rfl⟩)
+    by_cases hr : a.info.rule.res = res
+    · cases hk : a.info.rule.kind with
+      | reject =>
+        by_cases hb : a.info.rule.thr.exceeds (a.tokens srcOf H (t / nsPerMs) + b) = true
+        · simp only [chainG, refOps, hr, hk, hb, ne_eq, not_true_eq_false, if_false, if_true]
+          exact List.Forall₂.cons ⟨rfl, rfl, rfl⟩ hrefl
+        · have := ih t
+          simp only [chainG, refOps, hr, hk, hb, ne_eq, not_true_eq_false, if_false] at this ⊢
+          exact List.Forall₂.cons ⟨rfl, rfl, rfl⟩ this
+      | throttle maxQ =>
+        have h1 := ih t
+        simp only [chainG, refOps, hr, hk, ne_eq, not_true_eq_false, if_false] at h1 ⊢
+        rcases Throttle.doCheck ((maxQ * nsPerMs : Nat) : Int) a.last (t : Int) (throttleReq a.info.rule.thr a.info.rule.iv b) with ⟨l, o⟩
+        cases o with
+        | block => exact List.Forall₂.cons ⟨rfl, rfl, rfl⟩ hrefl
+        | pass => exact List.Forall₂.cons ⟨rfl, rfl, rfl⟩ h1
+        | wait w =>
+          have h2 := ih (t + w.toNat)
+          simp only [refOps] at h2
+          exact List.Forall₂.cons ⟨rfl, rfl, rfl⟩ h2
+    · have := ih t
+      simp only [chainG, refOps, hr, ne_eq, not_false_eq_true, if_true] at this ⊢
+      exact List.Forall₂.cons ⟨rfl, rfl, rfl⟩ this
+
+
+
+theorem forall₂_mem_left {α β : Type} {R : α → β → Prop} {l1 : List α} {l2 : List β} (h : List.Forall₂ R l1 l2) {a : α}
+    (ha : a ∈ l1) : ∃ b ∈ l2, R a b := by
+  induction h with
+  | nil => simp at ha
+  | cons hab _ ih =>
+    rcases List.mem_cons.mp ha with e | h'
+    · subst e; exact ⟨_, List.mem_cons_self .., hab⟩
+    · obtain ⟨b, hb, hr⟩ := ih h'; exact ⟨b, List.mem_cons_of_mem _ hb, hr⟩
+
+/-- cap invariant of a reference state: nothing is newer than `latest`; every controller knows since when it is in
+    force (`born`), and every own-traffic reject rule has, in every window position, at most `T` tokens admitted since then -/
+structure CappedG (r : RSt) (latest : Nat) : Prop where
+  le : ∀ a ∈ r.H, a.t ≤ latest
+  born : ∀ c ∈ r.ctrls, c.since ≤ c.born ∧ c.born ≤ r.H.length
+  cap : ∀ c ∈ r.ctrls, c.info.rule.kind = .reject → c.info.feed = c.info.rule.res → ∀ e,
+    c.info.rule.thr.exceeds (refW c.info.L (histOf (r.H.drop c.born) c.info.rule.res) (e + c.info.L - c.info.Iv) e) = false
+
+theorem CappedG.idle {r latest} (cp : CappedG r latest) {now : Nat} (h : latest ≤ now) : CappedG r now :=
+  ⟨fun a ha => le_trans (cp.le a ha) h, cp.born, cp.cap⟩
+
+theorem CappedG.entry {r latest} (cp : CappedG r latest) {t : Nat} (hle : latest ≤ t / nsPerMs) (res b : Nat) :
+    CappedG (refEntryG RuleInfo.feed r res t b).1 ((refEntryG RuleInfo.feed r res t b).2.1 / nsPerMs) := by
+  have hstat := chainG_ref_static RuleInfo.feed r.H res b r.ctrls t
+  have htle := chainG_time_le (refOps RuleInfo.feed r.H) res b r.ctrls t
+  have hroom := chainG_none_room (refOps RuleInfo.feed r.H) res b r.ctrls t
+  set x := chainG (refOps RuleInfo.feed r.H) res b r.ctrls t with hx
+  have hR : refEntryG RuleInfo.feed r res t b =
+      ({ ctrls := x.1, H := if x.2.2.isNone && x.2.1 / nsPerMs != 0 then r.H ++ [{ t := x.2.1 / nsPerMs, res := res, b := b }] else r.H },
+        x.2.1, x.2.2) := rfl
+  rw [hR]
+  have hms : latest ≤ x.2.1 / nsPerMs := le_trans hle (Nat.div_le_div_right htle)
+  by_cases hpass : (x.2.2.isNone && x.2.1 / nsPerMs != 0) = true
+  swap
+  · simp only [hpass]
+    refine ⟨fun a ha => le_trans (cp.le a ha) hms, ?_, ?_⟩
+    · intro c' hc'
+      obtain ⟨c, hc, h1, h2, h3⟩ := forall₂_mem_left hstat hc'
+      rw [h2, h3]; exact cp.born c hc
+    · intro c' hc' hk hf e
+      obtain ⟨c, hc, h1, h2, h3⟩ := forall₂_mem_left hstat hc'
+      rw [h1, h3]; rw [h1] at hk hf; exact cp.cap c hc hk hf e
+  simp only [hpass, if_true]
+  simp only [Bool.and_eq_true, Option.isNone_iff_eq_none] at hpass
+  set ms := x.2.1 / nsPerMs with hmsdef
+  refine ⟨?_, ?_, ?_⟩
+  · intro a ha
+    rcases List.mem_append.mp ha with h | h
+    · exact le_trans (cp.le a h) hms
+    · simp at h; subst h; exact le_refl _
+  · intro c' hc'
+    obtain ⟨c, hc, h1, h2, h3⟩ := forall₂_mem_left hstat hc'
+    rw [h2, h3]
+    exact ⟨(cp.born c hc).1, le_trans (cp.born c hc).2 (by simp)⟩
+  · intro c' hc' hk hf e
+    obtain ⟨c, hc, h1, h2, h3⟩ := forall₂_mem_left hstat hc'
+    rw [h1, h3]; rw [h1] at hk hf
+    obtain ⟨hsb, hbl⟩ := cp.born c hc
+    rw [List.drop_append_of_le_length hbl, histOf_append]
+    dsimp only
+    by_cases hr : res = c.info.rule.res
+    swap
+    · simp only [hr, if_false]; exact cp.cap c hc hk hf e
+    simp only [hr, if_true]
+    rw [refW_append]
+    by_cases hin : e + c.info.L - c.info.Iv ≤ cbs c.info.L ms ∧ cbs c.info.L ms ≤ e
+    swap
+    · simp only [hin, if_false, Nat.add_zero]; exact cp.cap c hc hk hf e
+    simp only [hin, and_self, if_true]
+    -- the moment at which this rule was asked
+    obtain ⟨tc, h1t, h2t, hblk⟩ := hroom hpass.1 c hc hr.symm hk
+    have hmc1 : latest ≤ tc / nsPerMs := le_trans hle (Nat.div_le_div_right h1t)
+    have hmc2 : tc / nsPerMs ≤ ms := Nat.div_le_div_right h2t
+    -- its count at that moment, as a window over the history from `k` on, `k ≤ born`
+    have hk' : ∃ k, k ≤ c.born ∧ c.tokens RuleInfo.feed r.H (tc / nsPerMs) =
+        refW c.info.L (histOf (r.H.drop k) c.info.rule.res) (cbs c.info.L (tc / nsPerMs) + c.info.L - c.info.Iv) (cbs c.info.L (tc / nsPerMs)) := by
+      unfold RCtrl.tokens windowTokens
+      rw [hf]
+      cases c.info.geom with
+      | own n L => exact ⟨c.since, hsb, rfl⟩
+      | view Iv => exact ⟨0, Nat.zero_le _, by simp⟩
+      | bad => exact ⟨0, Nat.zero_le _, by simp⟩
+    obtain ⟨k, hkb, htok⟩ := hk'
+    have hblk' : c.info.rule.thr.exceeds (c.tokens RuleInfo.feed r.H (tc / nsPerMs) + b) = false := hblk
+    rw [htok] at hblk'
+    have hold : ∀ y ∈ histOf (r.H.drop k) c.info.rule.res, cbs c.info.L y.1 ≤ cbs c.info.L (tc / nsPerMs) := fun y hy =>
+      cbs_mono c.info.L (le_trans (histOf_time_le (r.H.drop k) latest _ (fun a ha => cp.le a (List.mem_of_mem_drop ha)) y hy) hmc1)
+    have hcm : cbs c.info.L (tc / nsPerMs) ≤ cbs c.info.L ms := cbs_mono c.info.L hmc2
+    have h1 := refW_drop_le c.info.L r.H c.info.rule.res k c.born hkb (e + c.info.L - c.info.Iv) e
+    have h2 : refW c.info.L (histOf (r.H.drop k) c.info.rule.res) (e + c.info.L - c.info.Iv) e ≤
+        refW c.info.L (histOf (r.H.drop k) c.info.rule.res) (cbs c.info.L (tc / nsPerMs) + c.info.L - c.info.Iv) (cbs c.info.L (tc / nsPerMs)) := by
+      apply refW_le_of_imp
+      intro y hy hw
+      have := hold y hy
+      exact ⟨by omega, this⟩
+    cases hx' : c.info.rule.thr.exceeds (refW c.info.L (histOf (r.H.drop c.born) c.info.rule.res) (e + c.info.L - c.info.Iv) e + b) with
+    | false => rfl
+    | true =>
+      have := Thr.exceeds_mono c.info.rule.thr (Nat.add_le_add_right (le_trans h1 h2) b) hx'
+      rw [this] at hblk'; cases hblk'
+
+
+
+/-- after a reload every controller is an old one, or one that came into force now (`born = hlen`) and whose own
+    window is either new or inherited from an old controller -/
+theorem refReloadFrom_mem (rules : List Rule) (hlen : Nat) (pool acc : List RCtrl) (i : Nat) :
+    ∀ c' ∈ refReloadFrom pool acc hlen i rules,
+      c' ∈ acc ∨ c' ∈ pool ∨ (c'.born = hlen ∧ (c'.since ≤ hlen ∨ ∃ c ∈ pool, c'.since = c.since)) := by
+  induction rules generalizing pool acc i with
+  | nil => intro c' hc'; exact Or.inl hc'
+  | cons r rs ih =>
+    intro c' hc'
+    simp only [refReloadFrom] at hc'
+    -- every continuation is `refReloadFrom pool' acc' …` with pool' ⊆ pool and acc' = acc or acc ++ [new]
+    have key : ∀ (pool' acc' : List RCtrl), (∀ x ∈ pool', x ∈ pool) →
+        (∀ x ∈ acc', x ∈ acc ∨ x ∈ pool ∨ (x.born = hlen ∧ (x.since ≤ hlen ∨ ∃ c ∈ pool, x.since = c.since))) →
+        c' ∈ refReloadFrom pool' acc' hlen (i + 1) rs →
+        c' ∈ acc ∨ c' ∈ pool ∨ (c'.born = hlen ∧ (c'.since ≤ hlen ∨ ∃ c ∈ pool, c'.since = c.since)) := by
+      intro pool' acc' hp ha hm
+      rcases ih pool' acc' (i + 1) c' hm with h | h | ⟨hb, hs⟩
+      · exact ha c' h
+      · exact Or.inr (Or.inl (hp c' h))
+      · refine Or.inr (Or.inr ⟨hb, ?_⟩)
+        rcases hs with hs | ⟨c, hc, hs⟩
+        · exact Or.inl hs
+        · exact Or.inr ⟨c, hp c hc, hs⟩
+    have hacc : ∀ x ∈ acc, x ∈ acc ∨ x ∈ pool ∨ (x.born = hlen ∧ (x.since ≤ hlen ∨ ∃ c ∈ pool, x.since = c.since)) :=
+      fun x hx => Or.inl hx
+    have hsnoc : ∀ (n : RCtrl), (n ∈ pool ∨ (n.born = hlen ∧ (n.since ≤ hlen ∨ ∃ c ∈ pool, n.since = c.since))) →
+        ∀ x ∈ acc ++ [n], x ∈ acc ∨ x ∈ pool ∨ (x.born = hlen ∧ (x.since ≤ hlen ∨ ∃ c ∈ pool, x.since = c.since)) := by
+      intro n hn x hx
+      rcases List.mem_append.mp hx with h | h
+      · exact Or.inl h
+      · simp at h; subst h; exact Or.inr hn
+    split_ifs at hc' with hv
+    swap
+    · exact key pool acc (fun _ h => h) hacc hc'
+    split at hc'
+    · -- equal
+      rename_i e _ _
+      split at hc'
+      · rename_i c hce
+        exact key _ _ (fun x hx => List.mem_of_mem_eraseIdx hx) (hsnoc c (Or.inl (List.mem_of_getElem? hce))) hc'
+      · exact key pool acc (fun _ h => h) hacc hc'
+    · rename_i j _
+      split at hc'
+      · rename_i c hcj
+        exact key _ _ (fun x hx => List.mem_of_mem_eraseIdx hx)
+          (hsnoc { info := { idx := i, rule := r, geom := c.info.geom }, since := c.since, born := hlen }
+            (Or.inr ⟨rfl, Or.inr ⟨c, List.mem_of_getElem? hcj, rfl⟩⟩)) hc'
+      · exact key pool acc (fun _ h => h) hacc hc'
+    · split at hc'
+      · exact key pool _ (fun _ h => h) (hsnoc _ (Or.inr ⟨rfl, Or.inl (Nat.zero_le _)⟩)) hc'
+      · split at hc'
+        · exact key pool acc (fun _ h => h) hacc hc'
+        · exact key pool _ (fun _ h => h) (hsnoc _ (Or.inr ⟨rfl, Or.inl (le_refl _)⟩)) hc'
+
+theorem CappedG.reload {r latest} (cp : CappedG r latest) (rules : List Rule) (base : Nat) :
+    CappedG (refReloadG r rules base) latest := by
+  refine ⟨cp.le, ?_, ?_⟩
+  · intro c' hc'
+    rcases refReloadFrom_mem rules r.H.length r.ctrls [] base c' hc' with h | h | ⟨hb, hs⟩
+    · simp at h
+    · exact cp.born c' h
+    · show c'.since ≤ c'.born ∧ c'.born ≤ r.H.length
+      rw [hb]
+      refine ⟨?_, le_refl _⟩
+      rcases hs with hs | ⟨c, hc, hs⟩
+      · exact hs
+      · rw [hs]; exact le_trans (cp.born c hc).1 (cp.born c hc).2
+  · intro c' hc' hk hf e
+    rcases refReloadFrom_mem rules r.H.length r.ctrls [] base c' hc' with h | h | ⟨hb, _⟩
+    · simp at h
+    · exact cp.cap c' h hk hf e
+    · show c'.info.rule.thr.exceeds (refW c'.info.L (histOf (r.H.drop c'.born) c'.info.rule.res) (e + c'.info.L - c'.info.Iv) e) = false
+      rw [hb, List.drop_length]
+      simp [histOf, refW, Thr.not_exceeds_zero]
+
+theorem refRunOps_capped {m : RMSt} (cp : CappedG m.r (m.t / nsPerMs)) (ops : List Op) :
+    CappedG (refRunOps RuleInfo.feed m ops).1.r ((refRunOps RuleInfo.feed m ops).1.t / nsPerMs) := by
+  induction ops generalizing m with
+  | nil => exact cp
+  | cons o rs ih =>
+    simp only [refRunOps]
+    apply ih
+    cases o with
+    | clock ms => exact cp.idle (Nat.div_le_div_right (le_max_left _ _))
+    | load rules => exact cp.reload rules m.nrules
+    | entry res b => exact cp.entry (le_refl _) res b
+
+
 end Sentinel.FlowReject
